@@ -107,6 +107,28 @@ fn c13b_sequence_start_overflow_witness() {
     roundtrip::<40, M2Animation>(b, kc::ANIM_SIZE_V256, |r| M2Animation::parse(r, 256), |a, w| a.write(w, 256));
 }
 
+/// the size rule M2Model::write applies to its sequence table (operator, threshold and both sizes extracted from
+/// model.rs) equals the number of bytes M2Animation::write produces, for EVERY legacy version number 256..=264
+#[kani::proof]
+#[kani::stub(std::fmt::format, vio::fmt_stub)]
+#[kani::unwind(8)]
+fn c13b_sequence_size_rule() {
+    let version: u32 = kani::any();
+    kani::assume(version >= 256 && version <= 264);
+    let b: [u8; 60] = kani::any();
+    let mut src = Src::<60>::new(b, 60);
+    let a = M2Animation::parse(&mut src, version).unwrap();
+    kani::assume(a.start_timestamp <= u32::MAX - 1000); // known finding sequence-start-overflow
+    let mut out = Sink::<64>::new();
+    assert!(a.write(&mut out, version).is_ok());
+    let first = if kc::ANIM_SIZE_OP.len() == 2 { version <= kc::ANIM_SIZE_SPLIT } else { version < kc::ANIM_SIZE_SPLIT };
+    let rule = if first { kc::ANIM_SIZE_V256 } else { kc::ANIM_SIZE_TBC };
+    kani::cover!(version == 257 && out.pos == rule);
+    assert!(out.pos == rule, "M2Model::write's sequence size rule differs from the bytes M2Animation::write produces for this version");
+    assert!(src.pos == rule, "M2Model::write's sequence size rule differs from the bytes M2Animation::parse consumes for this version");
+    std::mem::forget(a);
+}
+
 fn sequence_bc(version: u32) {
     let b: [u8; 60] = kani::any();
     roundtrip::<60, M2Animation>(b, kc::ANIM_SIZE_TBC, |r| M2Animation::parse(r, version), |a, w| a.write(w, version));
